@@ -37,6 +37,10 @@ func (p *Plugin) Start(_ pipeline.AnyConfig, params *pipeline.OutputPluginParams
 func (_ *Plugin) Stop() {}
 
 func (p *Plugin) Out(event *pipeline.Event) {
-	fmt.Println(event.Root.EncodeToString()) // nolint:forbidigo
+	// the parent of spawned children (split action) only carries the commit; its tree was handed
+	// over to the children and does not encode anymore (pipeline.Batch skips it the same way)
+	if !event.IsChildParentKind() {
+		fmt.Println(event.Root.EncodeToString()) // nolint:forbidigo
+	}
 	p.controller.Commit(event)
 }
